@@ -4,6 +4,8 @@
 #include "vh.hpp"
 #include <sstream>
 #include <memory>
+#include <thread>
+#include <fstream>
 
 namespace vh {
 
@@ -32,6 +34,23 @@ template<class F> std::string to_stream_bytes(F f) { std::ostringstream os(std::
 template<class F> std::string to_file_bytes(F f) {
     char *buf = nullptr; size_t len = 0; FILE *fp = open_memstream(&buf, &len); f(fp); fclose(fp);
     std::string s(buf, len); free(buf); return s;
+}
+
+// a FILE* opened in append mode on a fresh temporary file (writes always go to the end, seeking back cannot overwrite)
+template<class F> std::string to_append_file_bytes(F f) {
+    char path[] = "/tmp/vh-io-XXXXXX"; int fd = mkstemp(path); if (fd < 0) { perror("mkstemp"); exit(2); } close(fd);
+    FILE *fp = fopen(path, "ab"); f(fp); fclose(fp);
+    std::string s; FILE *r = fopen(path, "rb"); char buf[65536]; size_t n; while ((n = fread(buf, 1, sizeof buf, r)) > 0) s.append(buf, n); fclose(r); unlink(path);
+    return s;
+}
+// a FILE* on a pipe (not seekable), drained by a reader thread
+template<class F> std::string to_pipe_bytes(F f) {
+    int pfd[2]; if (pipe(pfd)) { perror("pipe"); exit(2); }
+    std::string s;
+    std::thread reader([&] { char buf[65536]; ssize_t n; while ((n = read(pfd[0], buf, sizeof buf)) > 0) s.append(buf, n); close(pfd[0]); });
+    FILE *fp = fdopen(pfd[1], "wb"); f(fp); fclose(fp);
+    reader.join();
+    return s;
 }
 
 static inline bool deq(double a, double b) { return memcmp(&a, &b, 8) == 0; }
